@@ -142,6 +142,13 @@ def bind_target(eng, target, st, fid, val):
 
 def exec_for(eng, node, st, fid):
     def after_iter(s, itv):
+        if isinstance(itv, VFunc) and itv.kind == "dictview" and _has_spec(eng, node) \
+                and not s.objs[itv.a.oid].get("lazy") and not s.objs[itv.a.oid].get("pure"):
+            # a dict-view loop WITH a hand invariant (its body does more than rewriting D[k], e.g. it changes ghost state):
+            # iterate the ghost enumeration of the dictionary under the invariant
+            from . import comprehension as C
+            outs = C.iterable_to_seq(eng, s, itv)
+            return eng._stmt(outs, lambda s2, sq: run_seq(eng, node, s2, fid, sq))
         if isinstance(itv, VFunc) and itv.kind == "dictview":
             r = summarise_dict_loop(eng, node, s, fid, itv)
             if r is not None:
@@ -154,6 +161,11 @@ def exec_for(eng, node, st, fid):
             return eng._stmt(outs, lambda s2, sq: run_seq(eng, node, s2, fid, sq))
         return run_seq(eng, node, s, fid, seq)
     return eng._stmt(eng.eval(node.iter, st, fid), after_iter)
+
+
+def _has_spec(eng, node):
+    ordn = loop_ordinal(eng, node)
+    return eng.cur_contract is not None and ordn is not None and eng.cur_contract.loops.get(ordn) is not None
 
 
 def run_seq(eng, node, st, fid, seq):
@@ -329,6 +341,9 @@ def summarise_dict_loop(eng, node, st, fid, view):
             if r2 is not r0 and any(not _same(r2.get(key), r0.get(key)) for key in set(r2) | set(r0)):
                 del eng.obls[saved_obls:]
                 return None
+        if any(isinstance(gk, str) and not _same(gv, st.ghost.get(gk)) for gk, gv in s2.ghost.items()):
+            del eng.obls[saved_obls:]
+            return None          # the body changes named ghost state (a trace, a modelled external matrix): not a pure map update
         r2 = s2.objs[d.oid]
         if not _same(r2["dom"], rec["dom"]):
             kd = z3.Const(fresh_name("keyd"), ksort)
